@@ -12,6 +12,7 @@ package load
 //         disable                                     => disabled   (load.Disable(): what is created from now on is a nop shedder)
 //         allow k=<key> over=<0/1/d> cpu=<n> p=<id>   => ok|overloaded flying= avg= mp= rt= mf= ot= dr= cpuok= nan=
 //               over=d: the package's DEFAULT systemOverloadChecker runs (stat.CpuUsage() >= threshold on the injected reading)
+//               (nilpromise: Allow returned neither a promise nor an error)
 //         pass <id> | fail <id>                       => flying= avg=  | nopromise | nop
 //         getmany k=<key> n=<goroutines>              => distinct=<number of different shedders n concurrent GetShedder(key) calls returned>
 //               again=<1: a later GetShedder(key) returns one of them>        (group sections)
@@ -524,6 +525,9 @@ func TestVerifC02(t *testing.T) {
 						return "err " + err.Error()
 					}
 					head = "overloaded"
+				} else if p == nil {
+					// admitted without a promise: every caller resolves the promise unconditionally and would crash
+					return "nilpromise"
 				} else {
 					proms[kv["p"]] = c02Prom{p: p, as: as}
 				}
